@@ -152,9 +152,11 @@ def compute_facts(lay, rw, pos, v, pfacts, new_text):
     if rw == "parens":
         b = toks[pos + 1] if pos + 1 < len(toks) else None
     blank = lambda t, i: 0 <= i < len(t) and t[i] == " "
-    if a is not None and a.kind in LR.FIX_OPS and a.end <= p:
+    # tokens whose reading depends on op_fix: the operators + - * ** and a literal with a minus sign
+    fixy = lambda t: t.kind in LR.FIX_OPS or (t.kind in LR.LITERALS and t.content.startswith("-"))
+    if a is not None and fixy(a) and a.kind in LR.FIX_OPS and a.end <= p:
         fix_changed |= blank(old, a.end) != blank(new_text, a.end)
-    if b is not None and b.kind in LR.FIX_OPS and b.start >= p:
+    if b is not None and fixy(b) and b.start >= p:
         fix_changed |= blank(old, b.start - 1) != blank(new_text, b.start - 1 + delta)
     # a blank or a `#` comment now directly follows the end of a block comment
     ins_after = rw in ("trailing-space", "trailing-comment") or (rw == "continuation" and v.get("keep", 0) > 0)
